@@ -37,6 +37,10 @@ def make_tasks(ctx, max_ops, max_depth, handoff=True):
     it.run()
     tasks = {}
     for m in received:
+        if "action_type" not in m and m["task_level"][-1] % 2 == 0:
+            # a plain message may carry an application field that happens to be called action_status
+            # (log_message("app:m", action_status="shipped")): only action_type makes a message an action's start/end
+            m = dict(m, action_status="shipped")
         tasks.setdefault(m["task_uuid"], []).append(m)
     return it, list(tasks.values())
 
